@@ -191,11 +191,15 @@ func errnoName(v int64) string {
 }
 
 // pathHasAll: the fact set contains every literal (with its triggering polarity).
-func pathHasAll(p FactSet, lits []Lit) bool {
+func (m *ServerModel) pathHasAll(p FactSet, lits []Lit) bool {
 	for _, l := range lits {
 		found := false
 		for _, k := range l.Keys {
 			if v, ok := p[k]; ok && v == l.Pol {
+				found = true
+				break
+			}
+			if v, ok := m.tableDecides(p, k); ok && v == l.Pol {
 				found = true
 				break
 			}
@@ -208,10 +212,13 @@ func pathHasAll(p FactSet, lits []Lit) bool {
 }
 
 // pathRefutesOne: the fact set contains the negation of at least one literal.
-func pathRefutesOne(p FactSet, lits []Lit) bool {
+func (m *ServerModel) pathRefutesOne(p FactSet, lits []Lit) bool {
 	for _, l := range lits {
 		for _, k := range l.Keys {
 			if v, ok := p[k]; ok && v != l.Pol {
+				return true
+			}
+			if v, ok := m.tableDecides(p, k); ok && v != l.Pol {
 				return true
 			}
 		}
@@ -228,7 +235,7 @@ func (m *ServerModel) checkGuard(h *HandlerInfo, st *HState, g Guard, exits []*E
 	// 1. Every path to the site refutes the guard condition.
 	for _, p := range st.Paths {
 		cp := h.canonFacts(p)
-		if !pathRefutesOne(cp, g.Lits) {
+		if !m.pathRefutesOne(cp, g.Lits) {
 			return false, fmt.Sprintf("a path reaches the call without the guard %q having been evaluated to false (facts on that path: [%s])", g.Name, cp.key())
 		}
 	}
@@ -256,7 +263,7 @@ func (m *ServerModel) checkGuard(h *HandlerInfo, st *HState, g Guard, exits []*E
 			}
 			hit := false
 			for _, p := range ex.St.Paths {
-				if pathHasAll(h.canonFacts(p), g.Lits) {
+				if m.pathHasAll(h.canonFacts(p), g.Lits) {
 					hit = true
 					break
 				}
@@ -293,3 +300,129 @@ func sortedKeys(m map[string]bool) []string {
 }
 
 var _ = token.NoPos
+
+// --- decisions taken through a fixed table --------------------------------------------------
+//
+// "if !openModeAccess[ref.openFlags&OpenFlagsModeMask].read { return EPERM }" decides the same
+// as "if ref.openFlags&OpenFlagsModeMask == WriteOnly { return EPERM }" when WriteOnly is the
+// only row of the (effectively constant) table whose field read is false.  For a guard atom
+// "E == C" the facts of a path are consulted for a table read "T[E].f": the atom is refuted
+// when row C holds another value than the path established, and established when C is the
+// only row that holds it.
+
+// tableRowBool evaluates T[row].field for a constant table of structs with boolean fields.
+func (m *ServerModel) tableRowBool(cl *ast.CompositeLit, row int64, field string) (val, ok bool) {
+	info := m.Info
+	at, isArr := cl.Type.(*ast.ArrayType)
+	if !isArr {
+		return false, false
+	}
+	st, isStruct := info.TypeOf(at.Elt).Underlying().(*types.Struct)
+	if !isStruct {
+		return false, false
+	}
+	fidx := -1
+	for i := 0; i < st.NumFields(); i++ {
+		if st.Field(i).Name() == field {
+			if b, isB := st.Field(i).Type().Underlying().(*types.Basic); isB && b.Kind() == types.Bool {
+				fidx = i
+			}
+		}
+	}
+	if fidx < 0 {
+		return false, false
+	}
+	pos := int64(0)
+	for _, el := range cl.Elts {
+		v := el
+		if kv, isKV := el.(*ast.KeyValueExpr); isKV {
+			k, okK := constInt(info, kv.Key)
+			if !okK {
+				return false, false
+			}
+			pos, v = k, kv.Value
+		}
+		if pos == row {
+			rl, isRow := unparen(v).(*ast.CompositeLit)
+			if !isRow {
+				return false, false
+			}
+			for j, fe := range rl.Elts {
+				if kv, isKV := fe.(*ast.KeyValueExpr); isKV {
+					if id, isId := kv.Key.(*ast.Ident); isId && id.Name == field {
+						c := constValue(info, kv.Value)
+						return c != nil && c.String() == "true", c != nil
+					}
+				} else if j == fidx {
+					c := constValue(info, fe)
+					return c != nil && c.String() == "true", c != nil
+				}
+			}
+			return false, true // left at its zero value
+		}
+		pos++
+	}
+	return false, true // a row the literal leaves at zero
+}
+
+// tableLen: the number of rows of the table (array length, or number of elements).
+func (m *ServerModel) tableLen(cl *ast.CompositeLit) int64 {
+	if t, ok := m.Info.TypeOf(cl).Underlying().(*types.Array); ok {
+		return t.Len()
+	}
+	return int64(len(cl.Elts))
+}
+
+// tableDecides consults the table reads among the facts of p for the atom key "E == C":
+// (value, true) when they settle it.
+func (m *ServerModel) tableDecides(p FactSet, key string) (val, decided bool) {
+	i := strings.Index(key, " == ")
+	if i < 0 {
+		return false, false
+	}
+	e, c := key[:i], key[i+4:]
+	cv, ok := m.L.pkgConst("p9", c)
+	if !ok {
+		return false, false
+	}
+	for k, v := range p {
+		// T[E].f
+		lb := strings.Index(k, "[")
+		rb := strings.LastIndex(k, "].")
+		if lb <= 0 || rb < lb || k[lb+1:rb] != e {
+			continue
+		}
+		tname, field := k[:lb], k[rb+2:]
+		var cl *ast.CompositeLit
+		for obj, lit := range m.L.constTables() {
+			if obj.Name() == tname && obj.Pkg() != nil && obj.Pkg().Name() == "p9" {
+				cl = lit
+			}
+		}
+		if cl == nil {
+			continue
+		}
+		at, okAt := m.tableRowBool(cl, cv, field)
+		if !okAt {
+			continue
+		}
+		if at != v {
+			return false, true // row C holds the other value: E is not C on this path
+		}
+		// is C the only row with this value?
+		only := true
+		for r := int64(0); r < m.tableLen(cl); r++ {
+			if r == cv {
+				continue
+			}
+			rv, okR := m.tableRowBool(cl, r, field)
+			if !okR || rv == v {
+				only = false
+			}
+		}
+		if only {
+			return true, true
+		}
+	}
+	return false, false
+}
